@@ -73,17 +73,27 @@ def define():
         down("none", "heap" if v != "B3D" else "stack", v, o)
     downlazy("clone", "heap", "W8D", "W8")
     downlazy("clone", "heap", "W8D", "W8D")
+    # rotation pool: the dangerous same-size / same-align pairs on every entry point; everything else is thorough only
+    for v in ("W8", "W8D"):
+        for o in SAME8 + ["W8D"]:
+            for entry in ENTRIES:
+                offer(entry, "none", "heap", v, o, tier="rot16")
+            for pair in PAIRS:
+                swap_t(pair, "none", "heap", v, o, tier="rot16")
+            down("none", "heap", v, o, tier="rot16")
+            if v != o:
+                splice_t("none", "heap", v, o, tier="rot16", shape=(2, 0, 1), n=1)
     # thorough: all ordered pairs
     for v in VECS:
         for o in OFF:
             for entry in ENTRIES:
-                offer(entry, "none", "heap", v, o, tier="thorough" if (v in ("W8", "W8D") and o in SAME8) else "rot16")
+                offer(entry, "none", "heap", v, o, tier="thorough")
             down("none", "heap", v, o, tier="thorough")
             if v != o:
                 for sh, n in (((2, 0, 1), 1), ((2, 2, 2), 0), ((1, 0, 1), 2)):
-                    splice_t("none", "heap", v, o, tier="thorough" if (v in ("W8", "W8D") and o in SAME8) else "rot32", shape=sh, n=n)
+                    splice_t("none", "heap", v, o, tier="thorough", shape=sh, n=n)
             for pair in PAIRS:
-                swap_t(pair, "none", "heap", v, o, tier="thorough" if (v in ("W8", "W8D") and o in SAME8 + ["W8D"]) else "rot16")
+                swap_t(pair, "none", "heap", v, o, tier="thorough")
     for tr in ("clone", "call"):
         for o in ("W8", "W8D", "u64"):
             downlazy(tr, "heap", "W8D", o, tier="thorough")
